@@ -1121,7 +1121,9 @@ def fromFunction(func, interface=None, imlevel=0, name=None):
     method.required = names[:nr]
     method.optional = opt
 
-    argno = na
+    # In ``co_varnames``, the keyword-only parameters sit between the
+    # positional ones and the ``*args`` / ``**kwargs`` names.
+    argno = na + code.co_kwonlyargcount
 
     # Determine the function's variable argument's name (i.e. *args)
     if code.co_flags & CO_VARARGS:
